@@ -34,7 +34,7 @@ import (
 )
 
 const preamble = `From Coq Require Import String List NArith.
-From Fabio Require Import Lib.Outcome Lib.Bytes Lib.Pack Model.CertStore Proofs.CertStore Check.C11.
+From Fabio Require Import Lib.Outcome Lib.Bytes Lib.Pack Model.CertStore Proofs.CertStore Model.CertDeploy Proofs.CertDeploy Check.C11.
 Import ListNotations.
 Local Open Scope N_scope.
 `
@@ -1547,10 +1547,21 @@ func main() {
 			}
 		}
 	}
-	wg.Add(3)
+	// 3e. certificate directories whose states are published the way deployments do it
+	// (deploy.go): symbolic links into a release directory that is exchanged, files replaced
+	// by files of the same size and modification time.  Planned here, run beside the others.
+	deploys := planDeploys(run.Seed)
+	// 3f. the listeners of generated command lines through the real makeTLSConfig (deploy.go)
+	var lCases []pcase
+	var lViols []pviol
+	wg.Add(4 + len(deploys))
 	go runDir(dirStates, dirCerts, dirNames, dirResults)
 	go runDir(truncStates, truncCerts, truncNames, truncResults)
 	go runKV()
+	for _, d := range deploys {
+		go func(d *deploy) { defer wg.Done(); d.run() }(d)
+	}
+	go func() { defer wg.Done(); lCases, lViols = runListeners(run.Seed, run.Scale(6, 40)) }()
 	wg.Wait()
 	for _, res := range results {
 		items := make([]string, len(res.script))
@@ -1599,6 +1610,20 @@ func main() {
 			run.Add("consul-kv-to-store", vh.App("CWatch", "false", vh.List(items), vh.HxS(sn), vh.Bool(d.strict), "None", vh.List(d.picks[sn])),
 				map[string]interface{}{"states": human, "server_name": sn, "strict": d.strict, "picks": d.picks[sn]})
 		}
+	}
+	for _, d := range deploys {
+		for _, v := range d.viols {
+			run.Violation(run.NextID(), v.what, v.input)
+		}
+		for _, c := range d.cases() {
+			run.Add(c.class, c.term(), c.sample)
+		}
+	}
+	for _, v := range lViols {
+		run.Violation(run.NextID(), v.what, v.input)
+	}
+	for _, c := range lCases {
+		run.Add(c.class, c.term(), c.sample)
 	}
 	run.Finish(preamble, run.Scale(80, 400))
 }
